@@ -209,7 +209,12 @@ def check_spherical(ctx):
         names = [norm_text(x) for x in r.value.elts] if isinstance(r.value, ast.Tuple) else []
     st = [n for n in ast.walk(fc.node) if isinstance(n, ast.Call) and norm_text(n.func).endswith('stack')]
     for n in st:
-        order = [norm_text(x) for x in n.args[0].elts] if n.args and isinstance(n.args[0], (ast.Tuple, ast.List)) else None
+        def _unwrap(x):
+            # an elementwise conversion of one component (np.degrees(az), convert(el)) keeps its place in the triple
+            while isinstance(x, ast.Call) and len(x.args) == 1 and not x.keywords and isinstance(x.args[0], (ast.Name, ast.Call)):
+                x = x.args[0]
+            return x
+        order = [norm_text(_unwrap(x)) for x in n.args[0].elts] if n.args and isinstance(n.args[0], (ast.Tuple, ast.List)) else None
         # names bound from the _cart2sph call
         bound = None
         for a in ast.walk(fc.node):
@@ -218,7 +223,8 @@ def check_spherical(ctx):
         ok = order is not None and bound is not None and order == bound and names == ['az', 'el', 'r']
         ax = [k for k in n.keywords if k.arg == 'axis']
         ok_axis = ax and isinstance(ax[0].value, (ast.UnaryOp, ast.Constant)) and ast.literal_eval(ax[0].value) == -1
-        ctx.ob('R3', fc, n, True if (ok and ok_axis) else (False if order is not None and bound is not None else None),
+        permuted = order is not None and bound is not None and sorted(order) == sorted(bound) and order != bound
+        ctx.ob('R3', fc, n, True if (ok and ok_axis) else (False if (permuted or (ok and ax and not ok_axis)) else None),
                '(azimuth, elevation, radius) stacked on the last axis' if (ok and ok_axis) else 'spherical components are stacked in a different order / axis')
 
 
